@@ -7,6 +7,7 @@ package main
 import (
 	"bufio"
 	"bytes"
+	"encoding/hex"
 	"encoding/json"
 	"flag"
 	"fmt"
@@ -210,6 +211,20 @@ type workerSummary struct {
 	Sigs       map[string]uint64 `json:"sigs"`
 	Samples    []interface{}     `json:"samples"`
 	Pools      []string          `json:"pools"`
+	Reached    string            `json:"reached"`
+}
+
+// orHex ORs two hex-encoded bitmaps.
+func orHex(a, b string) string {
+	x, _ := hex.DecodeString(a)
+	y, _ := hex.DecodeString(b)
+	if len(y) > len(x) {
+		x, y = y, x
+	}
+	for i := range y {
+		x[i] |= y[i]
+	}
+	return hex.EncodeToString(x)
 }
 
 type runner struct {
@@ -391,6 +406,7 @@ func (r *runner) merge(s *workerSummary) {
 	if len(s.Pools) > len(r.sum.Pools) {
 		r.sum.Pools = s.Pools
 	}
+	r.sum.Reached = orHex(r.sum.Reached, s.Reached)
 }
 
 func tail(s string, n int) string {
@@ -980,6 +996,7 @@ func writeEvidence(cfg *propCfg, tier string, seed uint64, sums []workerSummary,
 	sigs := map[string]uint64{}
 	var samples []interface{}
 	var pools []string
+	reached := ""
 	for _, s := range sums {
 		worlds += s.Worlds
 		steps += s.Steps
@@ -997,6 +1014,7 @@ func writeEvidence(cfg *propCfg, tier string, seed uint64, sums []workerSummary,
 		if len(s.Pools) > len(pools) {
 			pools = s.Pools
 		}
+		reached = orHex(reached, s.Reached)
 	}
 	if len(samples) == 0 {
 		samples = append(samples, "no sample recorded")
@@ -1022,7 +1040,9 @@ func writeEvidence(cfg *propCfg, tier string, seed uint64, sums []workerSummary,
 		kf = append(kf, id)
 	}
 	sort.Strings(kf)
+	reach := functionReach(cfg.ID, tree, reached)
 	cov := map[string]interface{}{
+		"function_reach":             reach,
 		"evaluations":                worlds,
 		"distinct_nontrivial":        len(sigs),
 		"rule":                       cfg.Rule,
@@ -1175,4 +1195,67 @@ func main() {
 	default:
 		fatal2("unknown command %q", os.Args[1])
 	}
+}
+
+// functionReach reports how many instrumented functions (yield sites) the run passed at least once, overall
+// and within the anchor files of the property (properties.jsonl), and names the anchor functions never reached.
+func functionReach(prop, tree, reachedHex string) map[string]interface{} {
+	out := map[string]interface{}{"measure": "instrumented functions (one yield site at every function entry of the library, generated code excluded) entered at least once by any world of this run"}
+	b, err := os.ReadFile(filepath.Join(verifDir, ".build", tree, "ov-native", "sites.json"))
+	if err != nil {
+		out["note"] = "site table not available"
+		return out
+	}
+	var st struct {
+		Names []string `json:"names"`
+		Files []string `json:"files"`
+	}
+	json.Unmarshal(b, &st)
+	bits, _ := hex.DecodeString(reachedHex)
+	hit := func(i int) bool { return i/8 < len(bits) && bits[i/8]&(1<<uint(i%8)) != 0 }
+	anchors := map[string]bool{}
+	if pb, err := os.ReadFile(filepath.Join(verifDir, "properties.jsonl")); err == nil {
+		for _, line := range strings.Split(string(pb), "\n") {
+			var p struct {
+				ID      string `json:"id"`
+				Anchors struct {
+					Files []string `json:"files"`
+				} `json:"anchors"`
+			}
+			if json.Unmarshal([]byte(line), &p) == nil && p.ID == prop {
+				for _, f := range p.Anchors.Files {
+					anchors[f] = true
+				}
+			}
+		}
+	}
+	total, got, atotal, agot := 0, 0, 0, 0
+	var missing []string
+	for i, n := range st.Names {
+		if strings.Contains(n, "#") {
+			continue // error-code probes are reported separately
+		}
+		total++
+		if hit(i) {
+			got++
+		}
+		if i < len(st.Files) && anchors[st.Files[i]] {
+			atotal++
+			if hit(i) {
+				agot++
+			} else {
+				missing = append(missing, n)
+			}
+		}
+	}
+	sort.Strings(missing)
+	if len(missing) > 80 {
+		missing = append(missing[:80], fmt.Sprintf("... and %d more", len(missing)-80))
+	}
+	out["instrumented_functions"] = total
+	out["reached"] = got
+	out["anchor_file_functions"] = atotal
+	out["anchor_file_functions_reached"] = agot
+	out["anchor_file_functions_never_entered"] = missing
+	return out
 }
